@@ -404,7 +404,9 @@ func vC08FunctionLevel(res *vs.Result) {
 	if vs.ReplayFile() != "" {
 		return
 	}
-	univ := []types.Attribute{{Key: "ka", Value: "1"}, {Key: "ka", Value: "2"}, {Key: "kb", Value: "1"}, {Key: "kb", Value: "2"}}
+	// (the second value of each key is the empty string: legal, and the one
+	// value a lookup that confuses "key missing" with "value empty" gets wrong)
+	univ := []types.Attribute{{Key: "ka", Value: "1"}, {Key: "ka", Value: ""}, {Key: "kb", Value: "1"}, {Key: "kb", Value: ""}}
 	// attribute sets with at most one value per key (9 of them) and two with duplicates of a key
 	var sets []types.Attributes
 	for a := 0; a < 3; a++ {
